@@ -247,11 +247,11 @@ _EXTRA = {
     "C12": ["samplers.smc.base:SMCSampler.restore_from_checkpoint", "samplers.smc.base:SMCSampler.build_checkpoint_state", "aspire:Aspire.resume_from_file", "aspire:Aspire._build_aspire_from_file"],
     "C14": ["aspire:Aspire.resume_from_file", "aspire:Aspire._build_aspire_from_file", "samplers.smc.base:SMCSampler.sample", "aspire:Aspire.config_dict", "aspire:Aspire.save_config"],
     "C13": ["samples:BaseSamples.__setstate__", "transforms:CompositeTransform.__init__", "samples:Samples.to_numpy", "samples:SMCSamples.to_numpy", "aspire:Aspire.config_dict", "aspire:Aspire.save_config", "aspire:Aspire._build_aspire_from_file"],
-    "C15": ["aspire:Aspire._build_aspire_from_file", "flows.jax.flows:FlowJax.save", "flows.torch.flows:BaseTorchFlow.save", "samples:BaseSamples.from_dict", "samples:Samples.rejection_sample",
+    "C15": ["flows.torch.flows:ZukoFlow.sample_and_log_prob", "samplers.importance:ImportanceSampler.sample", "samplers.smc.minipcn:MiniPCNSMC.mutate", "samplers.smc.emcee:EmceeSMC.mutate", "aspire:Aspire._build_aspire_from_file", "flows.jax.flows:FlowJax.save", "flows.torch.flows:BaseTorchFlow.save", "samples:BaseSamples.from_dict", "samples:Samples.rejection_sample",
             "transforms:CompositeTransform.forward", "transforms:CompositeTransform.inverse"],
     "C17": ["aspire:Aspire.sample_posterior", "samplers.mcmc:Emcee.sample", "samplers.mcmc:MiniPCN.sample", "samplers.base:Sampler.log_likelihood"],
     "C18": ["samplers.smc.emcee:EmceeSMC.mutate", "samplers.smc.minipcn:MiniPCNSMC.mutate", "history:SMCHistory.save"],
-    "C20": ["flows.jax.flows:FlowJax.sample_and_log_prob", "samplers.importance:ImportanceSampler.sample"],
+    "C20": ["flows.jax.flows:FlowJax.sample_and_log_prob", "samplers.importance:ImportanceSampler.sample", "samplers.smc.base:SMCSampler.__init__", "samplers.smc.blackjax:BlackJAXSMC.__init__"],
 }
 for _pid, _qs in _EXTRA.items():
     for _q in _qs:
